@@ -18,6 +18,7 @@ fn main() {
         "C16" => e2_kg::c16(&args),
         "C13" => e3::c13(&args),
         "C15" => e4_c15::c15(&args),
+        "C20" => e4_se::c20(&args),
         "C31" => e5::c31(&args),
         "C28" => e5::c28(&args),
         "C11" => e2_store::c11(&args),
